@@ -66,7 +66,7 @@ UNIT = Unit('lb', [
         header="#[verifier::external_body] pub struct Context { x: u8 }   // rule 22: Arc<Mutex<HashMap<..>>> behind the trusted primitives new/set/get/value\n"),
     Ghost(_t('lb_ghost.rs'), props=['C02', 'C08'], name='lb_ghost'),
     Ghost("pub mod keyword { use super::*; use vstd::prelude::*; verus! {\n", name='kw_open'),
-    Src('keyword.rs', fns=KEYWORD, props=['C08', 'C10']),
+    Src('keyword.rs', fns=KEYWORD, props=['C08', 'C10'], keep_items=lambda kind, name: kind == 'fn'),
     Ghost("} }\n", name='kw_close'),
     Src('lib.rs', fns=LIB, props=['C01', 'C08'],
         keep_items=lambda kind, name: kind == 'fn',
